@@ -13,6 +13,7 @@ import (
 	"encoding/hex"
 	"encoding/json"
 	"fmt"
+	"os"
 	"sync"
 	"sync/atomic"
 	"time"
@@ -965,7 +966,7 @@ func run(r *chk.Run) {
 		i := 0
 		enumA(seed, func(c CaseA) {
 			i++
-			if i%n != shard || stop.Load() {
+			if i%n != shard || stop.Load() || os.Getenv("C09_ONLY") == "B" {
 				return
 			}
 			if e&0xff == 0 && r.TooMany() {
@@ -1001,12 +1002,13 @@ func run(r *chk.Run) {
 	full := func(n int) bool { return r.Thorough() || n <= 17 }
 	var total atomic.Int64
 	var cut atomic.Bool
+	onlyA := os.Getenv("C09_ONLY") == "A"
 	r.Parallel(func(shard, nsh int) {
 		var e, nt int64
 		i := 0
 		enumB(seed, columnCounts, full, func(c CaseB) {
 			i++
-			if i%nsh != shard || cut.Load() || stop.Load() {
+			if i%nsh != shard || cut.Load() || stop.Load() || onlyA {
 				return
 			}
 			if e&0xff == 0 {
